@@ -286,7 +286,14 @@ func (svd SigVerificationDecorator) AnteHandle(ctx sdk.Context, tx sdk.Tx, simul
 			if err != nil {
 				return ctx, err
 			}
-			pubKey.VerifySignature(bytesToSign, data.Signature)
+			if pubKey == nil {
+				return ctx, sdkerrors.ErrInvalidPubKey.Wrap("missing public key for oracle create-price tx")
+			}
+			// the result must be checked: without it anybody who knows a validator's public
+			// consensus key could submit (fee-less, top priority) prices in its name.
+			if !pubKey.VerifySignature(bytesToSign, data.Signature) {
+				return ctx, sdkerrors.ErrUnauthorized.Wrap("signature verification failed for oracle create-price tx; please verify the consensus key and chain-id")
+			}
 		}
 
 		return next(ctx, tx, simulate)
